@@ -137,14 +137,12 @@ using ExpPtr = std::unique_ptr<trompeloeil::expectation>;
 #define HC_VALID(fn) ::trompeloeil::call_validator_t<decltype(m.trompeloeil_self_##fn())>{m}
 #define HC_BASE(fn) ::trompeloeil::detail::conditional_t<false, decltype(m.fn()), decltype(m.trompeloeil_tag_##fn())> \
     {__FILE__, static_cast<unsigned long>(__LINE__), "m." #fn "()"}.fn().SIDE_EFFECT(hc::fx(c)).TIMES(2)
-template <int NY, typename Mod>
+// the CO_YIELD clauses number FROM .. TO-1
+template <int FROM, int TO, typename Mod>
 auto add_yields(Mod&& mod, Ctx* c)
 {
-  if constexpr (NY == 0) return std::forward<Mod>(mod);
-  else if constexpr (NY == 1) return std::forward<Mod>(mod).CO_YIELD(hc::y(c, 0));
-  else if constexpr (NY == 2) return std::forward<Mod>(mod).CO_YIELD(hc::y(c, 0)).CO_YIELD(hc::y(c, 1));
-  else if constexpr (NY == 3) return std::forward<Mod>(mod).CO_YIELD(hc::y(c, 0)).CO_YIELD(hc::y(c, 1)).CO_YIELD(hc::y(c, 2));
-  else return std::forward<Mod>(mod).CO_YIELD(hc::y(c, 0)).CO_YIELD(hc::y(c, 1)).CO_YIELD(hc::y(c, 2)).CO_YIELD(hc::y(c, 3));
+  if constexpr (FROM >= TO) return std::forward<Mod>(mod);
+  else return add_yields<FROM + 1, TO>(std::forward<Mod>(mod).CO_YIELD(hc::y(c, FROM)), c);
 }
 
 // a coroutine type that completes with `co_return;` awaits nothing, so it has no value type to yield
@@ -159,18 +157,19 @@ ExpPtr make_void(CM& m, Ctx* c, bool eager)
   return HC_VALID(egv) + HC_BASE(egv).CO_RETURN();
 }
 
-template <int NY>
+// NY yields; the completion clause (CO_RETURN / CO_THROW) is written after the first P of them
+template <int NY, int P>
 ExpPtr make(CM& m, Ctx* c, bool eager, bool voidret)
 {
   bool cothrow = c->rkind == 3;
   if (voidret) return make_void(m, c, eager);
   {
     if (!eager) {
-      if (cothrow) return HC_VALID(lz) + add_yields<NY>(HC_BASE(lz), c).CO_THROW(hc::t(c));
-      return HC_VALID(lz) + add_yields<NY>(HC_BASE(lz), c).CO_RETURN(hc::r(c));
+      if (cothrow) return HC_VALID(lz) + add_yields<P, NY>(add_yields<0, P>(HC_BASE(lz), c).CO_THROW(hc::t(c)), c);
+      return HC_VALID(lz) + add_yields<P, NY>(add_yields<0, P>(HC_BASE(lz), c).CO_RETURN(hc::r(c)), c);
     }
-    if (cothrow) return HC_VALID(eg) + add_yields<NY>(HC_BASE(eg), c).CO_THROW(hc::t(c));
-    return HC_VALID(eg) + add_yields<NY>(HC_BASE(eg), c).CO_RETURN(hc::r(c));
+    if (cothrow) return HC_VALID(eg) + add_yields<P, NY>(add_yields<0, P>(HC_BASE(eg), c).CO_THROW(hc::t(c)), c);
+    return HC_VALID(eg) + add_yields<P, NY>(add_yields<0, P>(HC_BASE(eg), c).CO_RETURN(hc::r(c)), c);
   }
   return nullptr;
 }
@@ -234,12 +233,24 @@ int main()
       else { c->rkind = 0; c->rval = std::stoi(r.substr(2)); }
       ctxs[c->id] = c;
       kinds[c->id] = (voidret ? 2 : 0) + (eager ? 1 : 0);
-      switch (c->ys.size()) {
-        case 0: exps[c->id] = make<0>(*mock, c, eager, voidret); break;
-        case 1: exps[c->id] = make<1>(*mock, c, eager, voidret); break;
-        case 2: exps[c->id] = make<2>(*mock, c, eager, voidret); break;
-        case 3: exps[c->id] = make<3>(*mock, c, eager, voidret); break;
-        default: exps[c->id] = make<4>(*mock, c, eager, voidret); break;
+      size_t ny = c->ys.size();
+      size_t pos = ny;                        // "P k": the completion clause is written after k yields
+      if (i + 3 < t.size() && t[i + 2] == "P") pos = static_cast<size_t>(std::stoi(t[i + 3]));
+      switch (ny * 10 + pos) {
+        case 0: exps[c->id] = make<0, 0>(*mock, c, eager, voidret); break;
+        case 10: exps[c->id] = make<1, 0>(*mock, c, eager, voidret); break;
+        case 11: exps[c->id] = make<1, 1>(*mock, c, eager, voidret); break;
+        case 20: exps[c->id] = make<2, 0>(*mock, c, eager, voidret); break;
+        case 21: exps[c->id] = make<2, 1>(*mock, c, eager, voidret); break;
+        case 22: exps[c->id] = make<2, 2>(*mock, c, eager, voidret); break;
+        case 30: exps[c->id] = make<3, 0>(*mock, c, eager, voidret); break;
+        case 31: exps[c->id] = make<3, 1>(*mock, c, eager, voidret); break;
+        case 32: exps[c->id] = make<3, 2>(*mock, c, eager, voidret); break;
+        case 33: exps[c->id] = make<3, 3>(*mock, c, eager, voidret); break;
+        case 40: exps[c->id] = make<4, 0>(*mock, c, eager, voidret); break;
+        case 42: exps[c->id] = make<4, 2>(*mock, c, eager, voidret); break;
+        case 44: exps[c->id] = make<4, 4>(*mock, c, eager, voidret); break;
+        default: ev("parse-error"); break;
       }
     } else if (t[0] == "call") {
       int cid = std::stoi(t[1]);
